@@ -220,9 +220,9 @@ def noteExit (f : Fid) (s : St W) : St W :=
 
 /-- is the outline of framer `i` truncated (a conditional auxiliary suspends frames)? (ghost) -/
 def truncated (P : Prog) (i : Frid) (s : St W) : Bool :=
-  match (s.fr i).active with
-  | some a => (s.fr i).actives != (P.frame a).outline
-  | none => false
+  (s.fr i).actives != (match (s.fr i).active with
+                       | some a => (P.frame a).outline
+                       | none => [])
 
 /-- `framer.reactivate()`: `self.change(self.active.outline, …)` -/
 def reactivate (P : Prog) (i : Frid) (s : St W) : Except Err (St W) :=
